@@ -326,6 +326,26 @@ fn run(line: &str) -> String {
             let f = f.vh_finalize();
             format!("{:e} {} {}", f.area(), fv(f.centroid()), fv(f.normal()))
         }
+        "withdata_alignment" => {
+            // withdata_alignment <ndata> <n> bits..: which cells are paired with one of the first <ndata> data entries by the three
+            // *_with_data methods (Data = (): the only data type a downstream crate can use, see known finding); prints the `left`
+            // labels reached by the two face variants and the number of cell integrals
+            use meshless_voronoi::integrals::{AreaIntegral, VolumeIntegral};
+            let ndata = a.u();
+            let n = a.u();
+            let mask: Vec<bool> = (0..n).map(|_| a.b()).collect();
+            let gens: Vec<DVec3> = (0..n)
+                .map(|k| DVec3::new((k as f64 + 0.5) / n as f64, 0.5 + 0.07 * ((k * 7 % 5) as f64 - 2.), 0.5 + 0.05 * ((k * 3 % 4) as f64 - 1.5)))
+                .collect();
+            let vi = VoronoiIntegrator::build(&gens, Some(&mask[..]), DVec3::ZERO, DVec3::ONE, Dimensionality::ThreeD, false);
+            let data = vec![(); ndata];
+            let nc = vi.compute_cell_integrals_with_data::<(), VolumeIntegral>(&data).len();
+            let mut lf: Vec<usize> = vi.compute_face_integrals_with_data::<(), AreaIntegral>(&data).iter().map(|f| f.left()).collect();
+            lf.dedup();
+            let mut ls: Vec<usize> = vi.compute_face_integrals_sym_with_data::<(), AreaIntegral>(&data).iter().map(|f| f.left()).collect();
+            ls.dedup();
+            format!("{} | {} | {}", nc, lf.iter().map(|x| x.to_string()).collect::<Vec<_>>().join(" "), ls.iter().map(|x| x.to_string()).collect::<Vec<_>>().join(" "))
+        }
         "cell_volumes" => {
             // cell_volumes <dim>: three generators on a line along x in the box [0,2]x[0,3]x[0,5] (unused axes: unit thickness);
             // VolumeIntegral through the integrator, followed by the closed-form measures
